@@ -113,8 +113,11 @@ func Gen(t *rapid.T, tier string) any {
 			if rapid.IntRange(0, 3).Draw(t, "has_cid") == 0 {
 				op.CID = rapid.SampledFrom(cids).Draw(t, "cid")
 			}
-		case k < 80:
+		case k < 78:
 			op = Op{Kind: "log_config", Ignored: genIgnored(t, "new_log_ignored"), Anon: rapid.Bool().Draw(t, "new_anon")}
+		case k < 80:
+			// the deprecated endpoint: only changes anonymisation here
+			op = Op{Kind: "log_config_legacy", Anon: rapid.Bool().Draw(t, "legacy_anon")}
 		case k < 86:
 			op = Op{Kind: "stats_config", Ignored: genIgnored(t, "new_stats_ignored")}
 		case k < 93:
@@ -645,6 +648,17 @@ func (r *runner) apply(op Op) error {
 		m.logIgn.close()
 		m.logIgn, m.anon = newIgnoreSet(op.Ignored), op.Anon
 		r.c.Fault("live_log_config_change")
+	case "log_config_legacy":
+		code, body, err := r.api("POST", "/control/querylog_config", map[string]any{"anonymize_client_ip": op.Anon})
+		if err != nil {
+			return err
+		}
+		if code != http.StatusOK {
+			return fmt.Errorf("harness: legacy querylog config -> %d %s", code, body)
+		}
+		m.anon = op.Anon
+		r.c.Fault("live_log_config_change")
+		r.c.Probe("legacy_config_endpoint")
 	case "stats_config":
 		code, body, err := r.api("PUT", "/control/stats/config/update", map[string]any{"enabled": true, "interval": 86_400_000, "ignored": orEmpty(op.Ignored)})
 		if err != nil {
@@ -796,5 +810,5 @@ var Prop = &kernel.Property{
 	Stub:        []string{"upstream resolver", "client sockets", "DHCP lease table (one static lease)", "query-log rotation and statistics flush loops (not started; the case stays inside one hour)"},
 	Assumptions: []string{"ignore patterns are matched by urlfilter (trusted) against the lower-cased name", "a request is attributed to an ignored client by its real identity: ClientID > exact IP > most specific CIDR > MAC of the lease", "ANY queries under ANY-refusal may or may not be recorded (the statement does not say)"},
 	FaultKinds:  []string{"live_log_config_change", "live_stats_config_change", "live_client_flag_change", "flush_to_disk"},
-	ProbeNames:  []string{"query_logged", "query_not_logged", "query_not_counted", "ignored_client_query", "ignored_client_query_anonymised"},
+	ProbeNames:  []string{"query_logged", "query_not_logged", "query_not_counted", "ignored_client_query", "ignored_client_query_anonymised", "legacy_config_endpoint"},
 }
